@@ -1234,7 +1234,10 @@ fn to_c_op1(op: Op, rng: &mut Rng, cur: &[u32; 14]) -> Vec<Op> {
                 }
             }
             if rng.chance(1, 6) {
-                v.push(Op::CSetInt(rng.below(13) as u8, *rng.pick(&[-1, 2, 3, 11, 40, 100, 1 << 30])));
+                // (never 2 for the conversion engine: that is the fuzzy engine, which capi cases leave alone)
+                let n = rng.below(13) as u8;
+                let val = *rng.pick(&[-1, 2, 3, 11, 40, 100, 1 << 30]);
+                v.push(Op::CSetInt(n, if n == 11 && val == 2 { 3 } else { val }));
             }
             return v;
         }
